@@ -9,6 +9,7 @@ import (
 	"github.com/IrineSistiana/mosproxy/internal/dnsmsg"
 	"github.com/IrineSistiana/mosproxy/internal/dnsutils"
 	"github.com/IrineSistiana/mosproxy/internal/pool"
+	"github.com/IrineSistiana/mosproxy/internal/verifhook"
 	"github.com/rs/zerolog"
 )
 
@@ -137,10 +138,16 @@ func (t *ReuseConnTransport) exchangeConn(payload []byte, c *reusableConn) (*dns
 	}
 	c.c.SetDeadline(time.Now().Add(respTimeout))
 	_, err := c.c.Write(payload)
+	if verifhook.On {
+		verifhook.Ev("rc.wrote", c, err == nil, payload)
+	}
 	if err != nil {
 		return nil, err
 	}
 	r, _, err := dnsutils.ReadMsgFromTCP(c.c)
+	if verifhook.On {
+		verifhook.Ev("rc.read", c, err == nil)
+	}
 	return r, err
 }
 
@@ -164,6 +171,9 @@ func (t *ReuseConnTransport) releaseConn(rc *reusableConn, err error) {
 		delete(t.conns, rc)
 	} else {
 		t.idleConns[rc] = struct{}{}
+	}
+	if verifhook.On {
+		verifhook.Ev("rt.release", t, rc, err == nil)
 	}
 	t.m.Unlock()
 }
@@ -201,6 +211,9 @@ func (t *ReuseConnTransport) asyncDial(ctx context.Context) (*reusableConn, erro
 				err = ErrClosedTransport
 			} else {
 				t.conns[rc] = struct{}{}
+				if verifhook.On {
+					verifhook.Ev("rt.register", t, rc)
+				}
 				t.m.Unlock()
 				debugLogTransportConnOpen(c, t.logger)
 			}
@@ -238,6 +251,9 @@ func (t *ReuseConnTransport) getIdleConn() (*reusableConn, error) {
 			delete(t.conns, c)
 			continue
 		}
+		if verifhook.On {
+			verifhook.Ev("rt.getIdle", t, c)
+		}
 		return c, nil
 	}
 	return nil, nil
@@ -252,6 +268,9 @@ func (t *ReuseConnTransport) Close() error {
 		return nil
 	}
 	t.closed = true
+	if verifhook.On {
+		verifhook.Ev("rt.close", t, len(t.conns))
+	}
 	for c := range t.conns {
 		c.c.Close()
 	}
@@ -285,6 +304,9 @@ func (c *reusableConn) exitIdle() (closed bool) {
 	c.m.Lock()
 	defer c.m.Unlock()
 	if c.closed {
+		if verifhook.On {
+			verifhook.Ev("rc.exitIdle", c, true)
+		}
 		return true
 	}
 	if c.serving {
@@ -293,6 +315,9 @@ func (c *reusableConn) exitIdle() (closed bool) {
 	c.serving = true
 	c.idleTimer.Stop()
 	err := c.c.SetReadDeadline(time.Time{}) // Fast check if connection has been closed.
+	if verifhook.On {
+		verifhook.Ev("rc.exitIdle", c, err != nil)
+	}
 	return err != nil
 }
 
@@ -304,6 +329,9 @@ func (c *reusableConn) enterIdle() {
 	}
 	c.serving = false
 	c.idleTimer.Reset(c.idleTimeout)
+	if verifhook.On {
+		verifhook.Ev("rc.enterIdle", c)
+	}
 }
 
 func (c *reusableConn) closeIfIdle() {
@@ -312,6 +340,9 @@ func (c *reusableConn) closeIfIdle() {
 	if !serving {
 		c.closed = true
 		defer c.c.Close()
+	}
+	if verifhook.On {
+		verifhook.Ev("rc.closeIfIdle", c, !serving)
 	}
 	c.m.Unlock()
 }
@@ -324,6 +355,9 @@ func (c *reusableConn) close() {
 	}
 	c.closed = true
 	c.idleTimer.Stop()
+	if verifhook.On {
+		verifhook.Ev("rc.close", c)
+	}
 	c.m.Unlock()
 	c.c.Close()
 }
